@@ -289,6 +289,35 @@ def split_files(files, parts, workdir, order_seed):
     return out
 
 
+def nondeterminism_corpus(rep, work):
+    """corpus/C06_nondeterministic_limits: one input of the recorded finding; 6 identical runs with binding limits, compared with
+    the first by MonotoneTrace (kind "same")"""
+    from checks import cv
+    from vlib import cvgen
+    src = os.path.join(env.VERIF, 'corpus', 'C06_nondeterministic_limits')
+    if not os.path.isdir(src):
+        return
+    d = os.path.join(work, 'nd_corpus'); os.makedirs(d, exist_ok=True)
+    cfg = dict(rule='trypsin', exc='', misc=2, min_len=3, max_len=23, min_mw='200.00005')
+    a = dict(genome_fasta=os.path.join(src, 'genome.fasta'), annotation_gtf=os.path.join(src, 'annotation.gtf'),
+             proteome_fasta=os.path.join(src, 'proteome.fasta'))
+    a.update(cvgen.cli_cfg(cfg))
+    jl = [dict(cmd='callVariant', args=dict(a, input_path=[os.path.join(src, 'v.gvf')], output_path=os.path.join(d, f'o{k}.fasta'),
+                                             max_variants_per_node=[1], additional_variants_per_misc=[0])) for k in range(6)]
+    res = jobs.run_jobs('run_cv_batch.py', [dict(jobs=[j]) for j in jl], timeout=1200)
+    outs = [rr['results'][0] for rr in res if rr.get('ok')]
+    if len(outs) < 6 or not all(x['ok'] for x in outs):
+        rep.machinery(f"corpus C06_nondeterministic_limits did not run: {[x.get('error') for x in outs][:2]}"); return
+    cases = [dict(kind='same', a=cvgen.spec_cfg(cfg), b=cvgen.spec_cfg(cfg), outA=cv.fasta_case(outs[0]['fasta']),
+                  outB=cv.fasta_case(x['fasta']), added='', txs=[]) for x in outs[1:]]
+    bad = [vs for vs in cv.tlc_cases('MonotoneTrace', cases, work, 'ndcorpus', rep) if any(v.startswith('"differs"') for v in vs)]
+    rep.traces(len(cases)); rep.case(len(cases), ('nd_corpus',))
+    if bad:
+        rep.violation("nondeterministic_under_binding_limits",
+                      "corpus/C06_nondeterministic_limits: 6 identical runs with --max-variants-per-node 1 --additional-variants-per-misc 0 "
+                      f"give {1 + len(bad)} runs unlike the first", dict(corpus='corpus/C06_nondeterministic_limits'))
+
+
 def timeout_pairs(rep, tier, work):
     """A transcript that times out is retried with lower complexity limits; that must not depend on the thread count and must
     not leak into other transcripts: the same input with the same injected timeout under --threads 1 and --threads 2 gives the
@@ -331,6 +360,7 @@ def timeout_pairs(rep, tier, work):
                           outB=cv.fasta_case(xb['fasta']), added='', txs=[]))
         info.append((it, tid, xa, xb))
     verdicts = cv.tlc_cases('MonotoneTrace', cases, work, 'tmo', rep)
+    differing = []
     for (it, tid, xa, xb), vs in zip(info, verdicts):
         rep.traces(1); rep.case(1, ('timeout', env.canon_hash([it['variants'], tid])) if xa['fasta'] else None)
         kinds = [re.match(r'"(\w+)"', v).group(1) for v in vs]
@@ -338,11 +368,55 @@ def timeout_pairs(rep, tier, work):
             rep.machinery(f"no verdict for timeout pair {tid}")
         if 'differs' in kinds:
             peps = [''.join(re.findall(r'"(.)"', x)) for v in vs if v.startswith('"differs"') for x in re.findall(r'<<(.*?)>>', v)]
+            differing.append((it, tid, xa, xb, peps))
+    # A difference between the two thread counts is only attributed to --threads when each thread count is stable by itself:
+    # the retry runs with binding complexity limits, under which identical runs of the unchanged tool can differ (recorded
+    # finding nondeterministic_under_binding_limits).  Every differing pair is therefore repeated 6 more times per thread
+    # count and MonotoneTrace (kind "same") compares the repeats of one thread count with its first run.
+    REPEATS = 6
+    jl2 = []
+    for it, tid, xa, xb, peps in differing:
+        for th in (1, 2):
+            for k in range(REPEATS):
+                a = dict(it['args'], max_variants_per_node=[7, 1], additional_variants_per_misc=[2, 0], threads=th,
+                         output_path=os.path.join(os.path.dirname(it['args']['output_path']), f'tmo_{tid}_{th}_r{k}.fasta'))
+                jl2.append(dict(cmd='callVariant', args=a, timeouts={tid: 1}))
+    res2 = jobs.run_jobs('run_cv_batch.py', [dict(jobs=[j]) for j in jl2], timeout=3400) if jl2 else []
+    flat2 = []
+    for rr in res2:
+        if not rr.get('ok'):
+            rep.machinery(f"timeout-pair repeat worker failed: {rr.get('error')} {rr.get('stderr', '')[-300:]}"); return
+        flat2.append(rr['results'][0])
+    cases2, owner = [], []
+    for n, (it, tid, xa, xb, peps) in enumerate(differing):
+        for ti, first in ((0, xa), (1, xb)):
+            for k in range(REPEATS):
+                x = flat2[(2 * n + ti) * REPEATS + k]
+                if not x['ok']:
+                    rep.violation(f"timeout-crash:{env.canon_hash([it['variants'], tid])}",
+                                  f"callVariant raised under an injected timeout on {tid}: {x['error']}", dict(variants=it['variants']))
+                    continue
+                cases2.append(dict(kind='same', a=it['case']['cfg'], b=it['case']['cfg'], outA=cv.fasta_case(first['fasta']),
+                                   outB=cv.fasta_case(x['fasta']), added='', txs=[]))
+                owner.append(n)
+    unstable = set()
+    if cases2:
+        for n, vs in zip(owner, cv.tlc_cases('MonotoneTrace', cases2, work, 'tmorep', rep)):
+            if any(v.startswith('"differs"') for v in vs):
+                unstable.add(n)
+    for n, (it, tid, xa, xb, peps) in enumerate(differing):
+        ctx = dict(gtf=it['gtf'], chroms=it['chroms'], variants=it['variants'], timeout_on=tid,
+                   threads1=sorted(s for _, s in xa['fasta']), threads2=sorted(s for _, s in xb['fasta']))
+        if n in unstable:
+            rep.violation("nondeterministic_under_binding_limits",
+                          f"identical callVariant runs (same --threads) give different peptide sets once the retry after a timeout on {tid} "
+                          f"runs with binding complexity limits: {peps[:6]}", ctx)
+        else:
             rep.violation(f"timeout-threads:{env.canon_hash([it['variants'], tid])}",
-                          f"with a timeout injected on {tid} the peptide set depends on --threads (1 vs 2): {peps[:6]}",
-                          dict(gtf=it['gtf'], chroms=it['chroms'], variants=it['variants'], timeout_on=tid,
-                               threads1=sorted(s for _, s in xa['fasta']), threads2=sorted(s for _, s in xb['fasta'])))
-    rep.part('timeout_pairs', pairs=len(info))
+                          f"with a timeout injected on {tid} the peptide set depends on --threads (1 vs 2; each stable over "
+                          f"{REPEATS + 1} runs): {peps[:6]}", ctx)
+    nondeterminism_corpus(rep, work)
+    rep.part('timeout_pairs', pairs=len(info), differing=len(differing), unstable_by_themselves=len(unstable))
 
 
 def check_c06(tier):
